@@ -205,7 +205,7 @@ static void s_run_out(const char *op, int which, const uint8_t *in, size_t inlen
             printf("\n");
         } else {
             printf("P %s %s rc=%s len=%zu\n", op, B->name, r[b].err, r[b].len);
-            if (b == 0) {
+            {
                 printf("W %s %s ", op, B->name);
                 s_put_w(&r[b]);
                 printf(" out=");
